@@ -1,4 +1,4 @@
-\* quick, safety: the listener node at the code's grain, every interleaving, no clocks; the dialer side is an adversary (4 moves incl. dials); CancelBackends at any point
+\* quick, safety: the listener node at the code's grain, every interleaving, no clocks; the dialer side is an adversary (3 moves incl. dials); CancelBackends at any point
 SPECIFICATION Spec
 CONSTANTS
   Links = {1}
@@ -17,7 +17,7 @@ CONSTANTS
   ShutNodes = {}
   CancelNodes = {"b"}
   BReborn = 0
-  BAdv = 4
+  BAdv = 3
   BIdle = 1
   BDial = 2
   Wit = FALSE
